@@ -865,7 +865,7 @@ func main() {
 
 func generate(w *run.W) {
 	// (a) general classes
-	nb := w.Pick(1200, 12000)
+	nb := w.Pick(3000, 16000)
 	for batch := 0; batch < nb; batch++ {
 		if !w.Mine(batch) {
 			continue
